@@ -402,13 +402,72 @@ def constructed(draw):
     return sp
 
 
+_reach = {}
+
+
+def _reach_tables():
+    """allowed-child graph of the shipped tables and, per element, whether an element evaluation looks at lies below it"""
+    if not _reach:
+        T = treegen.tables()
+        g = {e: sorted(set(T.usable(rn))) for e, rn in T.known.items()}
+        targets = set(PARTIES) | {"individualName", "methodStep", "dataTable", "otherEntity", "physical", "qualityControl",
+                                  "studyExtent", "maintenance", "keywordSet", "title", "abstract"}
+        can = {e for e in g if e in targets}
+        changed = True
+        while changed:
+            changed = False
+            for e, kids_ in g.items():
+                if e not in can and any(k in can for k in kids_):
+                    can.add(e)
+                    changed = True
+        _reach["g"], _reach["can"], _reach["targets"] = g, can, targets
+    return _reach["g"], _reach["can"], _reach["targets"]
+
+
+@st.composite
+def deep_path(draw):
+    """a chain of elements that follows the rules' allowed-child edges from a container far above (eml, dataTable,
+    attributeList, methods, coverage ...) down to an element evaluation looks at, which is then given a constructed
+    subtree: the recommendations apply at any depth and below any container"""
+    g, can, targets = _reach_tables()
+    cur = draw(st.sampled_from(["eml", "dataset", "dataTable", "attributeList", "attribute", "methods", "methodStep",
+                                "dataSource", "project", "otherEntity", "coverage", "spatialRaster", "additionalMetadata"]))
+    if cur not in can:
+        cur = "dataset"
+    top = node = {"n": cur}
+    for _ in range(draw(st.integers(2, 12))):
+        nxt = [k for k in g.get(cur, []) if k in can and k != REF]
+        if not nxt:
+            break
+        cur = nxt[draw(st.integers(0, len(nxt) - 1))]
+        if cur in targets and draw(st.integers(0, 2)) == 0:
+            break
+        child = {"n": cur}
+        node["k"] = [child]
+        node = child
+    if cur in g and cur != node["n"]:
+        leaf = draw(treegen.valid_spec(element=cur, max_nodes=14, max_depth=5, avoid=(REF,)))
+        from props.c16 import strip
+        strip(leaf)
+        if cur in PARTIES:
+            leaf["k"] = [k for k in leaf.get("k", []) if k["n"] not in ("userId", "electronicMailAddress")] if draw(st.booleans()) else leaf.get("k", [])
+        for _, x in treegen.spec_nodes(leaf):
+            if x["n"] == "individualName" and draw(st.booleans()):
+                x["k"] = [k for k in x.get("k", []) if k["n"] != "givenName"]
+            if x["n"] == "description" and draw(st.integers(0, 3)) == 0:
+                x.pop("k", None)
+                x["c"] = draw(st.sampled_from([None, "", " "]))
+        node.setdefault("k", []).append(leaf)
+    return top
+
+
 def strategy():
     c = constructed()
     mut = treegen.mutated(c, 1, 3, kinds=["drop", "dup", "swap", "rename-known", "content", "attr-bad", "attr-drop",
                                           "plant-misplaced", "clear-kids"]).map(lambda t: t[0])
     known_only = treegen.arb_spec(16).map(_known_names_only)
     return st.one_of(c.map(lambda s: ("valid", s)), c.map(lambda s: ("valid", s)), mut.map(lambda s: ("mutated", s)),
-                     known_only.map(lambda s: ("arbitrary-known-names", s)))
+                     known_only.map(lambda s: ("arbitrary-known-names", s)), deep_path().map(lambda s: ("deep-path", s)))
 
 
 EVALUATED = ["associatedParty", "contact", "creator", "dataset", "dataTable", "description", "individualName",
